@@ -79,7 +79,7 @@ func (l *Live) Update(ev *Event) (gone []*File) {
 			l.live[ev.File.Spec], l.removed[ev.File.Spec] = false, true
 			gone = append(gone, ev.File)
 		}
-	case "gc", "gcr":
+	case "gc", "gcr", "gcr2":
 		// evicted = roots that were gc candidates (in the gc index before) and whose gc entry is gone
 		after := map[string]bool{}
 		for _, g := range ev.After.GC {
@@ -122,9 +122,11 @@ func (l *Live) LiveFiles(rn *Runner) []*File {
 //	.after-unpin                     the chunk belongs to an uploaded file that went through pin + unpin (unpin enters it into the gc index)
 //	.evicted-file-pinned-during-run  the chunk belongs to a file that was evicted although it was pinned (POST /pins answered 201) while
 //	                                 the run was already working on it (gcr: inside DelFile, before the deletion callback)
+//	.evicted-file-pinned-before-commit the chunk belongs to a file that was pinned (201) AFTER its deletion callback had run and before the run
+//	                                 committed its batch (gcr2: inside the DelFile call of the next candidate)
 //	.other                           none of these
 //
-// For a `gcr` run whose racing operation fired, the run's own effect is everything between the state before the
+// For a `gcr` / `gcr2` run whose racing operation fired, the run's own effect is everything between the state before the
 // run and the state right before the racing operation, plus everything between the state right after it and the
 // state after the run (the batch of the run is committed at its end, so Has inside the window still shows every chunk).
 type C12Oracle struct {
@@ -143,14 +145,14 @@ func (o *C12Oracle) Check(ctx *core.Ctx, ev *Event) {
 	if ev.Kind == "gcr" && ev.Fired && ev.Target != nil && len(ev.Arg) == 5 && ev.Arg[2] == "unpin" && ev.RaceCode == "200" {
 		o.unpinned[ev.Target.Spec] = true // racing unpin through the API
 	}
-	if ev.Kind != "gc" && ev.Kind != "gcr" {
+	if ev.Kind != "gc" && ev.Kind != "gcr" && ev.Kind != "gcr2" {
 		return
 	}
 	rn := ev.Runner
 	b, a := ev.Before, ev.After
 	// segments of the run: [b, m0] and [m1, a]; without a racing operation m0 = m1 = b
 	m0, m1 := b, b
-	if ev.Kind == "gcr" && ev.Fired && ev.Mid0 != nil && ev.Mid1 != nil {
+	if (ev.Kind == "gcr" || ev.Kind == "gcr2") && ev.Fired && ev.Mid0 != nil && ev.Mid1 != nil {
 		m0, m1 = ev.Mid0, ev.Mid1
 	}
 	listed := map[string]bool{}
@@ -180,6 +182,9 @@ func (o *C12Oracle) Check(ctx *core.Ctx, ev *Event) {
 		addr := boson.MustParseHexAddress(k)
 		for _, f := range evicted {
 			if f.HasAddr(addr) && pinnedInRun[f.Root.String()] {
+				if ev.Kind == "gcr2" {
+					return "evicted-file-pinned-before-commit"
+				}
 				return "evicted-file-pinned-during-run"
 			}
 		}
